@@ -82,16 +82,22 @@ GIR_HEAD = ('<?xml version="1.0"?>\n<repository version="1.2" xmlns="http://www.
 
 INCLUDES = {
     # name: (version, id prefixes attr, sym prefixes attr, deps, nodes)
-    # node: (kind, name, ctype, gtype|None, parent giname|None)
+    # node: (kind, name, ctype, gtype|None, parent giname|None[, c:symbol-prefix attribute])
+    # (a type without the attribute is known to the pairing under its underscored GIR name)
     'GObject': ('2.0', 'G', 'g', [], [
         ('class', 'Object', 'GObject', 'GObject', None),
         ('class', 'InitiallyUnowned', 'GInitiallyUnowned', 'GInitiallyUnowned', 'Object'),
         ('record', 'Value', 'GValue', 'GValue', None),
         ('record', 'tkLookalike', 'GtkLookalike', None, None),
+        ('record', 'Closure', 'GClosure', 'GClosure', None, 'closure'),
+        ('class', 'Binding', 'GBinding', 'GBinding', 'Object', 'bnd'),
     ]),
     'Foo': ('1.0', 'Foo', 'foo', ['GObject'], [
         ('class', 'Base', 'FooBase', 'FooBase', 'GObject.Object'),
         ('record', 'Thing', 'FooThing', None, None),
+        ('class', 'Widget', 'FooWidget', 'FooWidget', 'Base', 'wdg'),
+        ('interface', 'Iface', 'FooIface', 'FooIface', None, 'iface'),
+        ('union', 'Event', 'FooEvent', None, None, 'event'),
     ]),
     'Plain': ('1.0', '', '', [], [
         ('record', 'plain_t', 'plain_t', None, None),
@@ -100,9 +106,21 @@ INCLUDES = {
     'Ab': ('1.0', 'Ab', 'ab', [], [
         ('record', 'cThing', 'AbcThing', None, None),
         ('record', 'Rec', 'AbRec', None, None),
+        ('record', 'Rect', 'AbRect', 'AbRect', None, 'rect'),
     ]),
 }
 
+
+def inc_node(node):
+    """(kind, name, ctype, gtype, parent, symbol prefix attribute or None)"""
+    return tuple(node) + (None, ) * (6 - len(node))
+
+
+# hand-written underscored GIR names of the include types (what a symbol would call them)
+INC_USCORED = {'Object': 'object', 'InitiallyUnowned': 'initially_unowned', 'Value': 'value',
+               'tkLookalike': 'tk_lookalike', 'Closure': 'closure', 'Binding': 'binding', 'Base': 'base',
+               'Thing': 'thing', 'Widget': 'widget', 'Iface': 'iface', 'Event': 'event', 'plain_t': 'plain_t',
+               'PlainRec': 'plain_rec', 'cThing': 'c_thing', 'Rec': 'rec', 'Rect': 'rect'}
 
 _written = {}
 
@@ -116,8 +134,10 @@ def write_include(scratch, name):
         out.append('  <include name="%s" version="%s"/>\n' % (d, INCLUDES[d][0]))
     out.append('  <namespace name="%s" version="%s" c:identifier-prefixes="%s" c:symbol-prefixes="%s">\n'
                % (name, ver, idp, symp))
-    for kind, nm, ctype, gtype, parent in nodes:
+    for kind, nm, ctype, gtype, parent, symprefix in map(inc_node, nodes):
         attrs = 'name="%s" c:type="%s"' % (nm, ctype)
+        if symprefix is not None:
+            attrs += ' c:symbol-prefix="%s"' % symprefix
         if gtype:
             attrs += ' glib:type-name="%s" glib:get-type="intern"' % gtype
         if parent:
@@ -165,7 +185,7 @@ def model_cfg(case, m):
         syms = symattr.split(',') if symattr else []
         incs.append({'name': n, 'id': ids, 'sym': syms, 'names': [x[1] for x in nodes]})
         lst = []
-        for kind, nm, ctype, gtype, parent in nodes:
+        for kind, nm, ctype, gtype, parent, symprefix in map(inc_node, nodes):
             pref = None
             if parent:
                 if '.' in parent:
@@ -173,7 +193,8 @@ def model_cfg(case, m):
                     pref = [order.index(pns), pn]
                 else:
                     pref = [order.index(n), parent]
-            lst.append({'name': nm, 'ctype': ctype, 'kind': kind, 'gtype': gtype, 'parent': pref})
+            lst.append({'name': nm, 'ctype': ctype, 'kind': kind, 'gtype': gtype, 'parent': pref,
+                        'sym_prefix': symprefix})
         inc_nodes.append(lst)
     return {'cur': {'name': ns, 'id': idp, 'sym': symp, 'names': []}, 'incs': incs,
             'accept': bool(case.get('accept_unprefixed')), 'inc_nodes': inc_nodes}, order
@@ -533,11 +554,11 @@ def oracle(ctx, case, outcome, res, cnt, type_names):
                 continue
             nxt = None
             for n in include_order(case['includes']):
-                for kind, nm, ct, gt, par in INCLUDES[n][4]:
+                for kind, nm, ct, gt, par, _sp in map(inc_node, INCLUDES[n][4]):
                     if ct == cur and par:
                         pn = par.split('.')[-1]
                         pns = par.split('.')[0] if '.' in par else n
-                        for kind2, nm2, ct2, gt2, par2 in INCLUDES[pns][4]:
+                        for kind2, nm2, ct2, gt2, par2, _sp2 in map(inc_node, INCLUDES[pns][4]):
                             if nm2 == pn:
                                 nxt = ct2
             if nxt:
@@ -777,7 +798,70 @@ def fn(name, ret, *params):
             'params': [{'name': 'a%d' % i, 'type': p} for i, p in enumerate(params)]}
 
 
-def gen_case(rng):
+def foreign_first_param_functions(rng, includes, sp, ann, own_types):
+    """functions of the scanned namespace whose FIRST parameter is a type of an INCLUDED namespace, named after
+    that type: <ns prefix>_<the include type's c:symbol-prefix or underscored name>_<verb>.  The statement lets a
+    function become a method only of a type of the SAME namespace, so every one of them stays a function of the
+    scanned namespace (described once, at top level or as a static function of an own type)."""
+    out = []
+    cands = []
+    for n in include_order(includes):
+        for kind, nm, ctype, gtype, parent, symprefix in map(inc_node, INCLUDES[n][4]):
+            cands.append((n, kind, nm, ctype, symprefix))
+    for n, kind, nm, ctype, symprefix in rng.sample(cands, min(len(cands), rng.randint(1, 3))):
+        spell = [INC_USCORED.get(nm, nm.lower())]
+        if symprefix:
+            spell.append(symprefix)
+        w = rng.choice(spell)
+        t = T(ctype)
+        ptr = P(t)
+        menu = [
+            lambda: fn('%s_%s_frob' % (sp, w), T('void'), ptr),
+            lambda: fn('%s_%s_get_x' % (sp, w), T('int'), ptr),
+            lambda: fn('%s_%s_set_x' % (sp, w), T('void'), ptr, T('int')),
+            lambda: fn('%s_%s_frob' % (sp, w), T('void'), ptr),
+            lambda: fn('%s_%s' % (sp, w), T('void'), ptr),                    # nothing after the type prefix
+            lambda: fn('%s_%s_' % (sp, w), T('void'), ptr),
+            lambda: fn('%s_%ss_register' % (sp, w), T('void'), ptr),         # continues the prefix without '_'
+            lambda: fn('%s_%s_by_value' % (sp, w), T('void'), t),
+            lambda: fn('%s_%s_pp' % (sp, w), T('void'), P(t, 2)),
+            lambda: fn('%s_%s_second' % (sp, w), T('void'), T('int'), ptr),   # foreign type NOT first
+            lambda: fn('%s_%s_dup' % (sp, w), ptr, ptr),
+            lambda: fn('%s_%s_with_own' % (sp, w), T('void'), ptr, P(T(rng.choice(own_types)))),
+            lambda: fn('%s_frob_%s' % (sp, w), T('void'), ptr),               # foreign first parameter, other name
+            lambda: fn('%s_%s_annotated' % (sp, w), T('void'), ptr),
+        ]
+        for _ in range(rng.randint(1, 3)):
+            f = rng.choice(menu)()
+            if any(x['name'] == f['name'] for x in out):
+                continue
+            out.append(f)
+            if f['name'].endswith('_annotated'):
+                ann[f['name']] = ['method']       # refused with a warning: methods belong to the type's namespace
+    return out
+
+
+def has_foreign_first_param(case):
+    """generator-side classification (coverage only): some function's first parameter is a single pointer to a
+    type of an included namespace and its name carries that type's prefix after some '_'"""
+    inc = {}
+    for n in include_order(case['includes']):
+        for kind, nm, ctype, gtype, parent, symprefix in map(inc_node, INCLUDES[n][4]):
+            inc[ctype] = [INC_USCORED.get(nm, nm.lower())] + ([symprefix] if symprefix else [])
+    declared = set(d.get('name') for d in case['decls'] if d['d'] != 'function')
+    for d in case['decls']:
+        if d['d'] == 'function' and d.get('params') and not case.get('annotations', {}).get(d['name']):
+            t = d['params'][0]['type']
+            if t['k'] == 'ptr' and t['to'].get('k') != 'ptr' and t['to'].get('n') in inc and \
+                    t['to']['n'] not in declared:
+                if any(('_' + w + '_') in d['name'] or d['name'].endswith('_' + w) for w in inc[t['to']['n']]):
+                    return True
+    return False
+
+
+def gen_case(rng, directed=False):
+    """`directed`: the configuration includes at least one namespace and declares functions named after the
+    included types with such a type as first parameter (generated on every run, see run())"""
     ns = rng.choice(NS_POOL)
     low = hand_uscore(ns)
     # identifier prefixes: 1-3, possibly prefixes of each other, possibly not containing the namespace name
@@ -820,6 +904,13 @@ def gen_case(rng):
         includes.append('Ab')
     if rng.random() < 0.2:
         includes.append('Plain')
+    if directed:
+        if rng.random() < 0.4 and ns != 'Foo' and 'Foo' not in includes:
+            includes.append('Foo')
+        if rng.random() < 0.25 and 'Ab' not in includes:
+            includes.append('Ab')
+        if not includes:
+            includes.append(rng.choice(['GObject', 'GObject', 'Ab'] + ([] if ns == 'Foo' else ['Foo'])))
     rng.shuffle(includes)
     accept = rng.random() < 0.15
     # the symbol prefix the generated functions use (without trailing '_')
@@ -938,6 +1029,11 @@ def gen_case(rng):
                 ann[f['name']] = ['constructor']
             elif rng.random() < 0.04:
                 ann[f['name']] = [rng.choice(['method', 'constructor'])]
+    # functions named after types of the INCLUDED namespaces, taking such a type first
+    if includes and (directed or rng.random() < 0.25):
+        for f in foreign_first_param_functions(rng, includes, rng.choice(sym_choices), ann, allc):
+            if not any(x.get('name') == f['name'] for x in decls):
+                decls.append(f)
     # enumerations, GType-registered through the dump (<enum> / <flags>) or plain
     for base, usc in rng.sample(ENUM_POOL, rng.choice([0, 0, 1, 1, 2])):
         idpre = rng.choice(eff_id)
@@ -1453,7 +1549,8 @@ def run(ctx):
     ncorpus = len(cases)
     n = ctx.n(900, 20000)
     while len(cases) < ncorpus + n:
-        cases.append(gen_case(rng))
+        # every 6th configuration is directed at functions taking a type of an included namespace first
+        cases.append(gen_case(rng, directed=(len(cases) - ncorpus) % 6 == 5))
     models = model_batch(ctx, m, cases, type_names)
     ctx.log('model done for %d configurations' % len(cases))
     disagree = []
@@ -1470,6 +1567,8 @@ def run(ctx):
             cnt.hit('cfg:callback-member')
         if any(f['type'].get('k') in ('struct', 'union') for f in members):
             cnt.hit('cfg:anonymous-compound-member')
+        if has_foreign_first_param(case):
+            cnt.hit('cfg:function-named-after-included-type-taking-it-first')
         cnt.case(['p', case], nontrivial=nfun > 0 and verdict not in (None, 'outside:scanner-refused'))
         if not agree:
             disagree.append(case)
@@ -1505,7 +1604,9 @@ def run(ctx):
                 'typedef/tag orders, function-pointer and anonymous-compound members, unions, classes/interfaces/boxed/'
                 'enums/flags via a minimal dump registered through *_get_type and *_get_gtype, type names with Get/'
                 'GetType/Set words in inner and final positions, look-alike and truncated type prefixes, '
-                'method/constructor/static look-alikes, annotated functions, foreign / underscore / upper-case symbols, '
+                'method/constructor/static look-alikes, annotated functions, functions named after a type of an INCLUDED '
+                'namespace (its c:symbol-prefix or underscored name) with that type as first parameter (every 6th '
+                'configuration), foreign / underscore / upper-case symbols, '
                 'constants, enums, callbacks, aliases) x prefix configurations (1-3 identifier prefixes, explicit or '
                 'default symbol prefixes with/without trailing "_", includes whose prefix is a prefix of ours, '
                 'unprefixed include, accept-unprefixed). non-trivial = contains an upper-case letter / splitter finds a '
